@@ -427,6 +427,31 @@ MathExact(name, v) ==
                               ELSE IF name = "fabs" /\ v.f = "nan" THEN V1(NaN) ELSE VOom)
   ELSE VTypeErr
 MathNames == {"floor", "ceil", "round", "trunc", "nearbyint", "rint", "fabs"}
+\* functions of the math library whose result is exact on small non-negative integers (IEEE sqrt is correctly rounded; Exp2, Log2, Frexp,
+\* Logb, Modf and Pow with an integral exponent do no rounding on these arguments); everything else about them is typing only
+RECURSIVE BnISqrt(_, _)
+BnISqrt(n, r) == IF (r + 1) * (r + 1) > n THEN r ELSE BnISqrt(n, r + 1)
+RECURSIVE BnILog2(_)
+BnILog2(n) == IF n <= 1 THEN 0 ELSE 1 + BnILog2(n \div 2)
+RECURSIVE BnP2(_)
+BnP2(k) == IF k = 0 THEN 1 ELSE 2 * BnP2(k - 1)
+RECURSIVE BnP10(_)
+BnP10(k) == IF k = 0 THEN 1 ELSE 10 * BnP10(k - 1)
+MathSmallNames == {"sqrt", "exp2", "exp10", "log2", "logb", "significand", "frexp", "modf"}
+MathSmall(name, v) ==
+  IF ~IsNumber(v) THEN VTypeErr
+  ELSE IF v.t = "frac" /\ name = "modf" /\ v.n > 0 THEN LET fl == FloorDiv(v.n, v.d) IN V1(Arr(<<MkFrac(v.n - fl * v.d, v.d), Num(fl)>>))
+  ELSE IF v.t # "num" \/ v.n < 0 \/ v.n > 1000000 THEN VOom
+  ELSE LET n == v.n  k == BnILog2(n) IN
+       CASE name = "sqrt" -> (LET r == BnISqrt(n, 0) IN IF r * r = n THEN V1(Num(r)) ELSE VOom)
+         [] name = "exp2" -> (IF n <= 29 THEN V1(Num(BnP2(n))) ELSE VOom)
+         [] name = "exp10" -> (IF n <= 9 THEN V1(Num(BnP10(n))) ELSE VOom)
+         [] name = "log2" -> (IF n >= 1 /\ BnP2(k) = n THEN V1(Num(k)) ELSE VOom)
+         [] name = "logb" -> (IF n >= 1 THEN V1(Num(k)) ELSE V1(NegInf))
+         [] name = "significand" -> (IF n = 0 THEN V1(Num(0)) ELSE IF k <= 12 THEN V1(MkFrac(n, BnP2(k))) ELSE VOom)
+         [] name = "frexp" -> (IF n = 0 THEN V1(Arr(<<Num(0), Num(0)>>)) ELSE IF k <= 11 THEN V1(Arr(<<MkFrac(n, BnP2(k + 1)), Num(k + 1)>>)) ELSE VOom)
+         [] name = "modf" -> V1(Arr(<<Num(0), Num(n)>>))
+         [] OTHER -> VOom
 \* transcendental etc.: typing only
 MathOpaque1 == {"sin","cos","tan","asin","acos","atan","sinh","cosh","tanh","asinh","acosh","atanh","significand",
                 "sqrt","cbrt","exp","exp10","exp2","expm1","log","log10","log1p","log2","logb","gamma","tgamma","lgamma",
@@ -443,7 +468,7 @@ BnMath2(name, a, b) ==
   ELSE CASE name = "fmax" -> V1(IF a.n >= b.n THEN a ELSE b)
          [] name = "fmin" -> V1(IF a.n <= b.n THEN a ELSE b)
          [] name = "fdim" -> V1(Num(IF a.n > b.n THEN a.n - b.n ELSE 0))
-         [] name = "pow" /\ b.n >= 0 /\ b.n <= 20 /\ Abs(a.n) <= 8 -> V1(Num(BnIPow(a.n, b.n)))
+         [] name = "pow" /\ b.n >= 0 /\ b.n <= 9 /\ Abs(a.n) <= 8 -> V1(Num(BnIPow(a.n, b.n)))
          [] name = "fmod" /\ b.n # 0 /\ a.n > 0 -> V1(Num(a.n % Abs(b.n)))            \* the sign of a zero result is not modelled: positive dividends only
          [] name \in {"ldexp", "scalb", "scalbln"} /\ b.n >= 0 /\ b.n <= 16 -> V1(Num(a.n * BnIPow(2, b.n)))
          [] OTHER -> VOom
@@ -733,6 +758,7 @@ Native(name, x, args) ==
     [] name = "isnormal" -> (IF ~IsNumber(x) THEN V1(False) ELSE IF x.t = "float" THEN (IF x.f \in {"nan", "inf", "-inf"} THEN V1(False) ELSE VOom)
                              ELSE IF x.t = "big" THEN VOom ELSE V1(Bool(NumerOf(x) # 0)))
     [] name \in MathNames -> MathExact(name, x)
+    [] name \in MathSmallNames -> MathSmall(name, x)
     [] name \in MathOpaque1 -> (IF IsNumber(x) THEN VOom ELSE VTypeErr)
     [] name \in BnMathOpaque2 -> BnMath2(name, a1, a2)
     [] name = "fma" -> (IF ~(IsNumber(a1) /\ IsNumber(a2) /\ IsNumber(a3)) THEN VTypeErr
